@@ -25,7 +25,7 @@ import ast
 
 from sa.checks import _instr as I
 from sa.engine import peval
-from sa.engine.index import AnalysisError, norm, own_nodes, parent
+from sa.engine.index import inorm, AnalysisError, norm, own_nodes, parent
 
 TR = "pynguin.instrumentation.tracer"
 FM = "pynguin.ga.fitness_metrics"
@@ -89,7 +89,7 @@ def _visit_line(ctx, repo, v) -> None:
         if isinstance(n, ast.Continue):
             g = parent(n)
             t = norm(g.test) if isinstance(g, ast.If) else "?"
-            lineless = t in ("not isinstance(instr.lineno, int)", "instr.lineno is None", "instr.lineno is None or instr.lineno is UNSET")
+            lineless = any(t in (f"not isinstance({lv_}.lineno, int)", f"{lv_}.lineno is None", f"{lv_}.lineno is None or {lv_}.lineno is UNSET") for lv_ in {x.id for x in ast.walk(loop.target) if isinstance(x, ast.Name)})
             if "should_cover_line" not in t and not lineless:
                 bad.append(f"continue under `{t[:60]}`")
     ctx.check("C02.every-instr", loop, not bad, f"[{v}] the probe loop of visit_node leaves or skips instructions ({'; '.join(bad)}): lines that start later in the block (e.g. in a handler block that begins with a line-less instruction) get no probe although they are registered elsewhere", what=f"[{v}] every instruction of the block is considered", stmt=f"[{v} loop shape]")
@@ -97,9 +97,12 @@ def _visit_line(ctx, repo, v) -> None:
     guard_ok = False
     for c in calls:
         g = parent(parent(c))
-        if isinstance(g, ast.If) and norm(g.test).startswith("self.should_instrument_line(instr, lineno)"):
-            upd = any(isinstance(s, ast.Assign) and norm(s.targets[0]) == "lineno" and norm(s.value) == "instr.lineno" for s in g.body)
-            guard_ok = upd
+        loop_names = {x.id for x in ast.walk(loop.target) if isinstance(x, ast.Name)}
+        tests = (g.test.values if isinstance(g.test, ast.BoolOp) and isinstance(g.test.op, ast.And) else [g.test]) if isinstance(g, ast.If) else []
+        for t in tests:
+            if isinstance(t, ast.Call) and norm(t.func) == "self.should_instrument_line" and len(t.args) == 2 and isinstance(t.args[0], ast.Name) and t.args[0].id in loop_names and isinstance(t.args[1], ast.Name):
+                lv, last = t.args[0].id, t.args[1].id  # the instruction of this iteration, the variable that remembers the line probed last
+                guard_ok = any(isinstance(s, ast.Assign) and norm(s.targets[0]) == last and norm(s.value) == f"{lv}.lineno" for s in g.body)
     ctx.check("C02.every-instr", loop, bool(calls) and guard_ok, f"[{v}] visit_node does not probe under `should_instrument_line(instr, lineno)` while remembering the probed line", what=f"[{v}] probe guarded by should_instrument_line, last line remembered", stmt=f"[{v} loop guard]")
 
 
@@ -215,7 +218,7 @@ def _metric(ctx, repo) -> None:
     fn = repo.func(FM, "compute_line_coverage")
     ctx.analysed(fn)
     text = " ".join(norm(s) for s in fn.body)
-    ok = "len(subject_properties.existing_lines)" in text and "len(trace.covered_line_ids)" in text and any(isinstance(n, ast.BinOp) and isinstance(n.op, ast.Div) and norm(n) == "covered / existing" for n in own_nodes(fn))
+    ok = any(isinstance(n, ast.BinOp) and isinstance(n.op, ast.Div) and inorm(fn, n) == "len(trace.covered_line_ids) / len(subject_properties.existing_lines)" for n in own_nodes(fn))
     ctx.check("C02.metric", fn, ok, "compute_line_coverage is no longer |trace.covered_line_ids| / |subject_properties.existing_lines|", what="line coverage = covered ids / registered ids", stmt="[metric]")
     writers = []
     for mod, qn, f in repo.all_functions():
@@ -230,4 +233,4 @@ def _metric(ctx, repo) -> None:
     tlv = repo.func(TR, "ExecutionTracer.track_line_visit")
     ctx.analysed(tlv)
     adds = [c for c in own_nodes(tlv) if isinstance(c, ast.Call) and norm(c.func).endswith("covered_line_ids.add")]
-    ctx.check("C02.metric", tlv, len(adds) == 1 and norm(adds[0].args[0]) == "line_id" and "_thread_local_state.trace" in norm(adds[0].func), "track_line_visit does not add exactly the reported line id to the current thread's trace", what="track_line_visit adds line_id to the thread-local trace", stmt="[track_line_visit]")
+    ctx.check("C02.metric", tlv, len(adds) == 1 and norm(adds[0].args[0]) == tlv.args.args[1].arg and "_thread_local_state.trace" in norm(adds[0].func), "track_line_visit does not add exactly the reported line id to the current thread's trace", what="track_line_visit adds line_id to the thread-local trace", stmt="[track_line_visit]")
